@@ -265,24 +265,60 @@ class CaseTimeout(Exception):
     pass
 
 
+_CASE = {"deadline": 0.0, "rss0": 0}
+_PAGE = os.sysconf("SC_PAGE_SIZE") if hasattr(os, "sysconf") else 4096
+RSS_GROWTH_LIMIT = 1 << 30      # a case whose process grows by more than 1 GiB is stopped like one that runs too long
+
+
+def _rss():
+    try:
+        with open("/proc/self/statm") as f:
+            return int(f.read().split()[1]) * _PAGE
+    except (OSError, ValueError, IndexError):
+        return 0
+
+
 def _alarm(signum, frame):
-    raise CaseTimeout()
+    """fires every second while a case runs: past the deadline, or grown by more than RSS_GROWTH_LIMIT (a loop that
+    never ends and keeps allocating), the case is interrupted -- while memory is still there to report it"""
+    if time.time() >= _CASE["deadline"]:
+        signal.setitimer(signal.ITIMER_REAL, 0)
+        raise CaseTimeout()
+    if _rss() - _CASE["rss0"] > RSS_GROWTH_LIMIT:
+        signal.setitimer(signal.ITIMER_REAL, 0)
+        raise CaseTimeout("memory: the call grew the process by more than 1 GiB")
+
+
+_WORKER = {"timeouts": 0, "pool": False}
 
 
 def _work(case):
     pl = _PLUGIN
+    if _WORKER["pool"] and _WORKER["timeouts"] >= 2:
+        # this worker has already waited out the limit twice: the rest of its chunk is not run (run_impl stops the
+        # batch when it sees this marker; nothing after it is reported)
+        return (None, [("skipped-after-timeouts", "")], None)
     signal.signal(signal.SIGALRM, _alarm)
-    signal.alarm(pl.case_timeout)
+    _CASE["deadline"] = time.time() + pl.case_timeout
+    _CASE["rss0"] = _rss()
+    signal.setitimer(signal.ITIMER_REAL, 1.0, 1.0)
     try:
         try:
             out = pl.impl(case)
             err = None
         except CaseTimeout:
             out, err = None, "timeout"
+        except MemoryError:
+            # nothing that allocates here: the traceback still holds the frames (and the data) of the runaway call
+            out, err = None, "MemoryError"
         except RecursionError:
             out, err = None, "harness-exception: RecursionError\n" + traceback.format_exc()[-1500:]
         except Exception as e:  # an exception escaping plugin.impl is a harness problem or an impl crash
             out, err = None, "harness-exception: %s: %s\n%s" % (type(e).__name__, e, traceback.format_exc()[-1500:])
+        if err == "MemoryError":
+            import gc
+            gc.collect()
+            err = "MemoryError: the call exhausted the worker's address space (a parse that does not terminate?)"
         viol = []
         if err is None:
             try:
@@ -293,6 +329,8 @@ def _work(case):
                 viol = [("oracle-exception", "%s: %s\n%s" % (type(e).__name__, e, traceback.format_exc()[-1200:]))]
         else:
             viol = [("impl-" + err.split(":")[0].split("\n")[0], err)]
+        if any(v[0] == "impl-timeout" or "CaseTimeout" in v[0] or "CaseTimeout" in str(v[1])[:200] for v in viol):
+            _WORKER["timeouts"] += 1
         try:
             key = pl.nontrivial_key(case, out) if err is None else None
         except Exception:
@@ -304,7 +342,24 @@ def _work(case):
             viol = list(viol) + [("impl-output-not-encodable", "%s: %r" % (type(e).__name__, out))]
         return (enc, viol, key)
     finally:
-        signal.alarm(0)
+        signal.setitimer(signal.ITIMER_REAL, 0)
+
+
+def _limit_memory():
+    """worker initializer, last resort behind the per-case growth check of _alarm: an address-space ceiling per worker
+    so that a runaway allocation inside one C call cannot take the machine down"""
+    import resource
+    _WORKER["pool"] = True
+    _WORKER["timeouts"] = 0
+    lim = 10 << 30
+    try:
+        resource.setrlimit(resource.RLIMIT_AS, (lim, lim))
+    except (ValueError, OSError):
+        pass
+
+
+def _say(msg):
+    print("[run_impl] " + msg, flush=True)
 
 
 def run_impl(plugin, cases):
@@ -315,15 +370,21 @@ def run_impl(plugin, cases):
     ctx = multiprocessing.get_context("fork")
     res = []
     timeouts = 0
-    with ctx.Pool(NPROC) as pool:
+    with ctx.Pool(NPROC, initializer=_limit_memory) as pool:
         for r in pool.imap(_work, cases, chunksize=max(1, min(200, len(cases) // (NPROC * 4)))):
+            if any(v[0] == "skipped-after-timeouts" for v in r[1]):
+                _say("a worker ran into the %ds / 1 GiB-growth limit twice; the remaining %d cases of this batch are not run" %
+                    (plugin.case_timeout, len(cases) - len(res)))
+                pool.terminate()
+                break
             res.append(r)
-            if any(v[0] == "impl-timeout" or "CaseTimeout" in v[0] for v in r[1]):
+            if any(v[0] == "impl-timeout" or "CaseTimeout" in v[0] or "MemoryError" in v[0] or "MemoryError" in str(v[1])[:300]
+                   for v in r[1]):
                 timeouts += 1
                 if timeouts >= 6:
                     # a non-terminating implementation: six cases that ran into the per-case limit are reported as
                     # they are; waiting out the limit for every further case adds nothing (the caller truncates)
-                    say("6 cases hit the %ds limit; the remaining %d cases of this batch are not run" %
+                    _say("6 cases hit the %ds / 1 GiB-growth limit; the remaining %d cases of this batch are not run" %
                         (plugin.case_timeout, len(cases) - len(res)))
                     pool.terminate()
                     break
